@@ -124,6 +124,7 @@ class Lib:
 
 
 _LIB = None
+STATS = {"small_dmax_rejected": 0, "small_dmax_success": 0}
 
 
 def lib():
@@ -165,18 +166,21 @@ def nontrivial_str(cps):
 
 # ---------------------------------------------------------------- checks
 
-def check_norm(cps, mode, dmax=None, bos=False):
+def check_norm(cps, mode, dmax=None, bos=False, exp=None):
     """One call of wcsnorm_s against the oracle.
     dmax None  -> AMPLE: must succeed with exactly the UAX#15 form, *lenp == length,
                   and normalising the library's own output again is a fixed point.
     dmax given -> may fail (any non-zero return) but must never report success
                   with something else than the normal form."""
     Lb = lib()
-    exp = py_norm(mode, cps)
+    if exp is None:
+        exp = py_norm(mode, cps)
     ample = dmax is None
     d = AMPLE if ample else dmax
     rc, out, lenp = Lb.norm(cps, mode, d, bos)
     v = []
+    if not ample:
+        STATS["small_dmax_rejected" if rc != 0 else "small_dmax_success"] += 1
     if rc != 0:
         if ample:
             v.append(("ample-error", "wcsnorm_s(%s, dmax=%d, %s) returned %d, expected EOK and %s"
@@ -193,8 +197,10 @@ def check_norm(cps, mode, dmax=None, bos=False):
     if lenp != len(out):
         v.append((tag + "len", "wcsnorm_s(%s, dmax=%d, %s) wrote %d characters but reported *lenp=%d"
                   % (ustr(cps), d, mode, len(out), lenp)))
-    if ample and out and all(0 < c <= 0x10FFFF for c in out) and len(out) + 1 < CAP // 2:
-        rc2, out2, lenp2 = Lb.norm(out, mode, max(AMPLE, 4 * len(out) + 8), False)
+    # the fixed-point check is oracle-independent; it is reported only when the first
+    # result itself agreed with the oracle (otherwise it is a consequence of that mismatch)
+    if ample and not v and out and all(0 < c <= 0x10FFFF for c in out) and len(out) + 1 < CAP // 2:
+        rc2, out2, lenp2 = Lb.norm(out, mode, max(AMPLE, len(out) + 8), False)
         if rc2 != 0 or out2 != out:
             v.append(("idem", "wcsnorm_s(%s, %s) = %s but normalising that again gives %s"
                       % (ustr(cps), mode, ustr(out), "rc=%d" % rc2 if rc2 else ustr(out2))))
@@ -373,6 +379,80 @@ def check_oor(entry, variant, value):
 
 
 # ---------------------------------------------------------------- cases
+
+def eval_string(cps, mode, bos=False, sweep=True, counter=None):
+    """ample call first, then the dmax sweep 1 .. len(NFD)+7; returns the first
+    violation (vkind, detail, dmax) or None.  A failing ample call suppresses the
+    sweep of that mode (its failures would be consequences)."""
+    exp = py_norm(mode, cps)
+    n = 1
+    v = check_norm(cps, mode, None, bos, exp)
+    if not v and sweep:
+        top = len(py_norm("NFD", cps)) + 8
+        for dmax in range(1, top):
+            n += 1
+            v = check_norm(cps, mode, dmax, bos, exp)
+            if v:
+                if counter is not None:
+                    counter[0] += n
+                return v[0][0], v[0][1], dmax
+    if counter is not None:
+        counter[0] += n
+    if v:
+        return v[0][0], v[0][1], None
+    return None
+
+
+def minimise(cps, mode, bos, vk):
+    """greedy one-character deletion while the same kind of violation remains
+    (used to classify a failing string by its smallest failing sub-sequence)"""
+    cur = list(cps)
+    changed = True
+    while changed and len(cur) > 1:
+        changed = False
+        for i in range(len(cur)):
+            cand = cur[:i] + cur[i + 1:]
+            r = eval_string(cand, mode, bos, sweep=vk.startswith("small-dmax"))
+            if r and r[0] == vk:
+                cur = cand
+                changed = True
+                break
+    return cur
+
+
+def token(cp):
+    if 0x1100 <= cp <= 0x1112:
+        return "L"
+    if 0x1161 <= cp <= 0x1175:
+        return "V"
+    if 0x11A8 <= cp <= 0x11C2:
+        return "T"
+    if 0xAC00 <= cp <= 0xD7A3:
+        return "LVT" if (cp - 0xAC00) % 28 else "LV"
+    if 0x10FF <= cp <= 0x11FF:
+        return "J"  # other / boundary jamo
+    if cp > 0x10FFFF or 0xD800 <= cp <= 0xDFFF:
+        return "X"
+    c = chr(cp)
+    if ud.combining(c):
+        return "M"
+    d = ud.decomposition(c)
+    if d and not d.startswith("<"):
+        return "D"
+    return "S"
+
+
+def pattern(cps):
+    """class of a (short) string: its character classes, plus how adjacent marks are ordered"""
+    toks = [token(c) for c in cps]
+    cc = [ud.combining(chr(c)) if c <= 0x10FFFF else 0 for c in cps]
+    suf = ""
+    if any(cc[i] and cc[i] == cc[i + 1] for i in range(len(cc) - 1)):
+        suf += ":same-ccc"
+    if any(cc[i] > cc[i + 1] > 0 for i in range(len(cc) - 1)):
+        suf += ":reorder"
+    return "+".join(toks) + suf
+
 
 def evaluate(case):
     k = case["kind"]
